@@ -5,9 +5,14 @@ use std::alloc::{GlobalAlloc, Layout, System};
 use std::sync::atomic::{AtomicUsize, Ordering};
 
 static REQUESTED: AtomicUsize = AtomicUsize::new(0);
+/// allocator model shared with llsym: requests above this size fail (usize::MAX = never)
+static FAIL_ABOVE: AtomicUsize = AtomicUsize::new(usize::MAX);
 struct Counting;
 unsafe impl GlobalAlloc for Counting {
     unsafe fn alloc(&self, l: Layout) -> *mut u8 {
+        if l.size() > FAIL_ABOVE.load(Ordering::Relaxed) {
+            return core::ptr::null_mut();
+        }
         REQUESTED.fetch_add(l.size(), Ordering::Relaxed);
         System.alloc(l)
     }
@@ -19,6 +24,9 @@ unsafe impl GlobalAlloc for Counting {
         System.alloc_zeroed(l)
     }
     unsafe fn realloc(&self, p: *mut u8, l: Layout, n: usize) -> *mut u8 {
+        if n > FAIL_ABOVE.load(Ordering::Relaxed) {
+            return core::ptr::null_mut();
+        }
         REQUESTED.fetch_add(n, Ordering::Relaxed);
         System.realloc(p, l, n)
     }
@@ -94,7 +102,11 @@ fn main() {
     let arg = args.get(2).map(|s| s.as_str()).unwrap_or("");
     let bytes = if let Some(path) = arg.strip_prefix('@') { unhex(std::fs::read_to_string(path).unwrap().trim()) } else { unhex(arg) };
     let f = table.iter().find(|(n, _)| *n == name.as_str()).expect("unknown check").1;
+    if let Ok(v) = std::env::var("LLSYM_ALLOC_FAIL_ABOVE") {
+        FAIL_ABOVE.store(v.parse().unwrap(), Ordering::Relaxed);
+    }
     let h0 = llsym_heap_total();
     let r = f(bytes.as_ptr(), bytes.len());
+    FAIL_ABOVE.store(usize::MAX, Ordering::Relaxed);
     println!("OK {} heap={}", r, llsym_heap_total() - h0);
 }
